@@ -115,6 +115,7 @@ func (rc *runCtx) translateAll(only func(short string) bool) ([]*Obligation, []*
 	var obls []*Obligation
 	var ctxs []*FnCtx
 	var problems []string
+	lemmaSeen := map[string]bool{}
 	for _, k := range keys {
 		fn := w.Funcs[k]
 		spec := w.C.Funcs[k]
@@ -145,6 +146,13 @@ func (rc *runCtx) translateAll(only func(short string) bool) ([]*Obligation, []*
 		}
 		obls = append(obls, tr.obls...)
 		ctxs = append(ctxs, tr)
+		for _, lv := range tr.lemmaVCs {
+			if lemmaSeen[lv.name] {
+				continue
+			}
+			lemmaSeen[lv.name] = true
+			obls = append(obls, lemmaObligation(w, lv))
+		}
 	}
 	// contracts attached to nothing
 	var ckeys []string
@@ -617,4 +625,34 @@ func splitAnd(g string) []string {
 		}
 	}
 	return []string{g}
+}
+
+// lemmaObligation: the count-frame lemma, proved by induction on n (base and step in one query: the
+// induction hypothesis is the statement for n-1).
+func lemmaObligation(w *World, lv lemmaVC) *Obligation {
+	tr := &FnCtx{W: w, Short: "lemma"}
+	tr.cmds = append(tr.cmds, lv.rec)
+	// constants
+	decl := lv.decls
+	decl = strings.ReplaceAll(decl, ") (", ")\n(")
+	for _, d := range strings.Split(decl, "\n") {
+		d = strings.TrimSpace(d)
+		if d == "" {
+			continue
+		}
+		d = strings.TrimPrefix(d, "(")
+		k := strings.Index(d, " ")
+		tr.cmds = append(tr.cmds, "(declare-const "+d[:k]+" "+strings.TrimSuffix(d[k+1:], ")")+")")
+	}
+	for _, c := range []string{"b1", "o1", "b2", "o2", "n"} {
+		tr.cmds = append(tr.cmds, "(declare-const "+c+" Int)")
+	}
+	tr.cmds = append(tr.cmds, "(assert (>= n 0))")
+	tr.cmds = append(tr.cmds, "(assert "+lv.pre+")")
+	// induction hypothesis for n-1 (its precondition follows from the precondition for n)
+	ih1 := "(" + lv.fname + " " + lv.a1 + " b1 o1 (- n 1))"
+	ih2 := "(" + lv.fname + " " + lv.a2 + " b2 o2 (- n 1))"
+	tr.cmds = append(tr.cmds, "(assert (=> (> n 0) (= "+ih1+" "+ih2+")))")
+	return &Obligation{Name: lv.name, Fn: "lemma", Kind: "lemma", Prefix: len(tr.cmds), Goal: "(= " + lv.c1 + " " + lv.c2 + ")",
+		Src: "count frame lemma by induction on n: heaps agreeing on the predicate over the first n elements give equal counts", Ctx: tr}
 }
